@@ -37,6 +37,15 @@ func w(dir, name string, data []byte) { os.WriteFile(filepath.Join(dir, name), d
 func jobs() []job {
 	fa := func(c *core.Ctx, dir string, n int) { w(dir, "in.fasta", gen.GenericFasta(c.Rng, n)) }
 	fq := func(c *core.Ctx, dir string, n int) { w(dir, "in.fastq", gen.GenericFastq(c.Rng, n)) }
+	// faWide: every record carries the same eight attributes (scalars, a list, a map)
+	faWide := func(c *core.Ctx, dir string, n int) {
+		var sb strings.Builder
+		for i := 0; i < n; i++ {
+			fmt.Fprintf(&sb, ">seq%05d {\"count\":%d,\"sample\":\"s%d\",\"run\":\"r%d\",\"plate\":%d,\"score\":%d.5,\"ok\":%v,\"pos\":[%d,%d],\"merged_sample\":{\"s1\":%d,\"s2\":%d}}\n%s\n",
+				i, 1+c.Rng.Intn(9), c.Rng.Intn(5), c.Rng.Intn(3), c.Rng.Intn(96), c.Rng.Intn(40), c.Rng.Intn(2) == 0, c.Rng.Intn(9), c.Rng.Intn(9), 1+c.Rng.Intn(5), 1+c.Rng.Intn(5), gen.DNA(c.Rng, 20+c.Rng.Intn(100)))
+		}
+		w(dir, "wide.fasta", []byte(sb.String()))
+	}
 	in := func(f string) func(string) []string {
 		return func(d string) []string { return []string{filepath.Join(d, f)} }
 	}
@@ -95,6 +104,11 @@ func jobs() []job {
 		{name: "obipairing:fast-absolute", bin: "obipairing", setup: pairs, args: pairArgs("--fast-absolute", "-D", "3")},
 		{name: "obimultiplex:default", bin: "obimultiplex", setup: mux, args: muxArgs()},
 		{name: "obimultiplex:keep-errors", bin: "obimultiplex", setup: mux, args: muxArgs("--keep-errors", "-e", "1")},
+		{name: "obimultiplex:close-tags", bin: "obimultiplex", args: muxArgs("--keep-errors"), setup: func(c *core.Ctx, dir string, n int) {
+			m := gen.MultiplexCloseTags(c.Rng, n)
+			w(dir, "sheet.txt", m.Sheet)
+			w(dir, "reads.fastq", m.Reads)
+		}},
 		{name: "obimultiplex:unidentified", bin: "obimultiplex", setup: mux, files: []string{"unid.fastq"},
 			args: func(d string) []string {
 				return []string{"-t", filepath.Join(d, "sheet.txt"), "-u", filepath.Join(d, "unid.fastq"), filepath.Join(d, "reads.fastq")}
@@ -121,22 +135,31 @@ func jobs() []job {
 		{name: "obisummary:yaml", bin: "obisummary", setup: fa, args: with("in.fasta", "--yaml-output"), noPB: true},
 		{name: "obicsv:keys", bin: "obicsv", setup: fa, args: with("in.fasta", "-i", "-s", "--count", "-k", "sample")},
 		{name: "obicsv:quality", bin: "obicsv", setup: fq, args: with("in.fastq", "-i", "-q", "-k", "count")},
+		// the columns of --auto are documented as those of the first batch: every record carries the same
+		// attributes here, so that only their order (and nothing about batching) is at stake
+		{name: "obicsv:auto", bin: "obicsv", setup: faWide, args: with("wide.fasta", "--auto", "-i")},
+		{name: "obiconvert:obi-header", bin: "obiconvert", setup: faWide, args: with("wide.fasta", "--output-OBI-header")},
+		{name: "obiconvert:obi-header-fastq", bin: "obiconvert", setup: fq, args: with("in.fastq", "--output-OBI-header")},
 	}
 }
 
 type config struct {
 	cpu, batch, gomax int
 	yield             string
+	debug             bool // --debug: more is logged on stderr, nothing else may change
 }
 
 func (k config) String() string {
-	return fmt.Sprintf("max-cpu=%d batch-size=%d GOMAXPROCS=%d yield=%s", k.cpu, k.batch, k.gomax, k.yield)
+	return fmt.Sprintf("max-cpu=%d batch-size=%d GOMAXPROCS=%d yield=%s debug=%v", k.cpu, k.batch, k.gomax, k.yield, k.debug)
 }
 
 func runJob(c *core.Ctx, bindir string, j job, dir string, k config, raceLog string) cmdx.Res {
 	args := []string{"--max-cpu", fmt.Sprint(k.cpu), "--batch-size", fmt.Sprint(k.batch)}
 	if !j.noPB {
 		args = append(args, "--no-progressbar")
+	}
+	if k.debug {
+		args = append(args, "--debug")
 	}
 	args = append(args, j.args(dir)...)
 	env := []string{"OBIVERIF_POISON=1"}
@@ -241,6 +264,7 @@ func runMatrix(c *core.Ctx, race bool) {
 		if c.Rng.Intn(3) == 0 {
 			k.gomax = []int{1, 2, 4}[c.Rng.Intn(3)]
 		}
+		k.debug = c.Rng.Intn(5) == 0
 		res := runJob(c, bindir, j, dir, k, raceLog)
 		c.Count("evaluations", 1)
 		c.Count("command_runs."+j.bin, 1)
@@ -439,9 +463,9 @@ func init() {
 		ID:    "C05",
 		Level: "exploration",
 		Rule: "each case = one (command, functional option set, generated input of 0/1/2/2500/4000 records: annotated FASTA/FASTQ, overlapping read pairs, tagged amplicons + sample sheet, templates with planted priming sites); the command is run with a reference configuration and then with 7 (quick) / 24 (thorough) other (--max-cpu in 1..32, --batch-size in 1..N, GOMAXPROCS, injected yield seeds, plain repetitions) with recycled buffers poisoned (0xDB); oracle: exit 0, byte-identical stdout, no poison byte; the same matrix on -race builds (reports with a site in the anchored files); porcupine linearizability of concurrent attribute operations on one sequence. " +
-			"Added later: reads trimmed to 1-12 bases in the pair generator, obiclean annotations for obisummary, compressed outputs (-Z: raw bytes compared, poison looked for in the inflated text), obipcr --fragmented on 100-140 kb templates with products inside the overlaps of consecutive pieces. " +
+			"Added later: --debug as one more non-functional axis, --output-OBI-header and obicsv --auto jobs, reads trimmed to 1-12 bases in the pair generator, obiclean annotations for obisummary, compressed outputs (-Z: raw bytes compared, poison looked for in the inflated text), obipcr --fragmented on 100-140 kb templates with products inside the overlaps of consecutive pieces. " +
 			"distinct_nontrivial = distinct (command option set, input size, max-cpu, batch-size, yield on/off, GOMAXPROCS) configurations compared with the reference on inputs of more than 2 records, plus linearizability histories",
-		Assume: []string{"metamorphic oracle: no model of the commands is needed, only equality with the reference configuration", "obicsv --auto is excluded (documented as based on the first batch)", "the annotation map exists before it is shared (as in every command)"},
+		Assume: []string{"metamorphic oracle: no model of the commands is needed, only equality with the reference configuration", "obicsv --auto takes its columns from the first batch (documented): it is exercised on inputs whose records all carry the same attributes, so that only the order of the columns is at stake", "the annotation map exists before it is shared (as in every command)"},
 		Subs: []core.Sub{
 			{Name: "matrix", N: core.Const(nj*2, nj*12), Shard: 1, TimeoutS: 1800, Run: func(c *core.Ctx) { runMatrix(c, false) }},
 			{Name: "race", N: core.Const(nj, nj), Shard: 1, TimeoutS: 1800, Run: func(c *core.Ctx) { runMatrix(c, true) }},
